@@ -1010,6 +1010,10 @@ class AirTouch4(pyairtouch.api.AirTouch):
                 self._state == _AirTouchState.INIT_GROUP_STATUS
             ):
                 await self._process_group_status_message(groups)
+                if self._state != _AirTouchState.INIT_GROUP_STATUS:
+                    # shutdown() was called while the subscribers were being
+                    # notified, so initialisation must not be completed.
+                    return
                 # Move to the next state
                 self._state = _AirTouchState.CONNECTED
                 await self._heartbeat_manager.start()
